@@ -3,10 +3,11 @@
    writer with the round-trip checker (VEmit.emit, VEmit.rt_check).
    ExtrOcamlBasic only; nat, N, Z, positive stay extracted inductives. No Extract Constant. *)
 From Coq Require Extraction ExtrOcamlBasic.
-From SV Require Import Fmt.VBits Fmt.VExpr Fmt.VTop Fmt.VDoc Fmt.VElab Fmt.VEmit.
+From SV Require Import Fmt.VBits Fmt.VExpr Fmt.VTop Fmt.VDoc Fmt.VElab Fmt.VEmit Fmt.VLex.
 Extraction Language OCaml.
 Extraction "verilog_model.ml" get_wires write_brackets read_brackets write_decl populate
   group write_concat read_concat read_piece sort_desc align
   update_cable update_port new_bundle item_at
   is_pinset_concatenated write_plain_port emit_port read_port reader_expr expr_bits read_assign write_assign brk_atom elect
-  elab emit rt_check writable.
+  elab emit rt_check writable
+  tokenize_raw_loop tokenize_loop.
